@@ -15,6 +15,7 @@ import Orb.Project
 import Orb.LoopForms
 import Generated.ProjectGo
 import Generated.MercatorGo
+import Generated.MvtGo
 
 namespace Orb.C15Tie
 open Orb Orb.Core Orb.Project Orb.LoopForms
@@ -135,6 +136,110 @@ theorem toGeo_tie (F : MFn α) (level : Nat) (p : Pt α) :
   rw [maxtiles_eq]
 
 theorem all_translated_MercatorGo : Generated.MercatorGo.translated = ["toPlanar", "toGeo"] := by
+  decide
+
+/-! ### encoding/mvt/projection.go: `isPowerOfTwo`, `newProjection`, `nonPowerOfTwoProjection`
+
+`newProjection` returns a struct of two closures; each is translated as "the field of the result, applied to
+`p`" (the statements in front of the `return`, then the closure's body; `return nonPowerOfTwoProjection(…)`
+becomes the call of the same field of that function).  uint32 subtraction wraps (`(a + 2^32 - b) % 2^32`),
+`uint64(x) << n` is `(x <<< n) % 2^64`, `bits.TrailingZeros32` is an opaque parameter instantiated by the
+model's `trailingZeros32`, `math.Floor` is `F.floor`. -/
+
+theorem isPowerOfTwo_tie (n : Nat) (h : n < 2 ^ 32) : Generated.MvtGo.isPowerOfTwo n = isPowerOfTwo n := by
+  unfold Generated.MvtGo.isPowerOfTwo isPowerOfTwo
+  cases n with
+  | zero => simp
+  | succ k =>
+    have hk : (k + 1 + 2 ^ 32 - 1) % 2 ^ 32 = k := by
+      have : k + 1 + 2 ^ 32 - 1 = k + 2 ^ 32 := by omega
+      rw [this, Nat.add_mod_right, Nat.mod_eq_of_lt (by omega)]
+    rw [hk]
+    simp
+    by_cases h0 : (k + 1) &&& k = 0 <;> simp [h0]
+
+theorem nonPow2ToTile_tie (F : MFn α) (t : Orb.Tile.Tile) (extent : Nat) (p : Pt α) :
+    Generated.MvtGo.nonPow2ToTile F.sin F.log F.floor F.pi F.twoPi F.c9999 F.ofNat t extent p
+      = (nonPow2Proj F.floor (toPlanar F t.z) (toGeo F t.z) (F.ofNat t.x) (F.ofNat t.y) (F.ofNat extent)).toTile p := by
+  unfold Generated.MvtGo.nonPow2ToTile nonPow2Proj
+  simp only [toPlanar_tie]
+
+theorem nonPow2ToWGS84_tie (F : MFn α) (t : Orb.Tile.Tile) (extent : Nat) (p : Pt α) :
+    Generated.MvtGo.nonPow2ToWGS84 F.atan F.exp F.pi F.twoPi F.d180pi F.ofNat t extent p
+      = (nonPow2Proj F.floor (toPlanar F t.z) (toGeo F t.z) (F.ofNat t.x) (F.ofNat t.y) (F.ofNat extent)).toWGS84 p := by
+  unfold Generated.MvtGo.nonPow2ToWGS84 nonPow2Proj
+  have h := toGeo_tie F t.z ⟨(p.x + 1 / 2) / F.ofNat extent + F.ofNat t.x, (p.y + 1 / 2) / F.ofNat extent + F.ofNat t.y⟩
+  simp only [h]
+
+/-- `newProjection(tile, extent).ToTile`, for an extent that is a uint32 -/
+theorem newProjToTile_tie (F : MFn α) (t : Orb.Tile.Tile) (extent : Nat) (he : extent < 2 ^ 32) (p : Pt α) :
+    Generated.MvtGo.newProjToTile F.sin F.log F.floor trailingZeros32 F.pi F.twoPi F.c9999 F.ofNat t extent p
+      = (newProjection F t.x t.y t.z extent).toTile p := by
+  unfold Generated.MvtGo.newProjToTile newProjection
+  rw [isPowerOfTwo_tie extent he]
+  cases isPowerOfTwo extent with
+  | true =>
+    simp only [↓reduceIte, pow2Proj, toPlanar_tie, Nat.shiftLeft_eq]
+  | false =>
+    simp only [Bool.false_eq_true, ↓reduceIte]
+    exact nonPow2ToTile_tie F t extent p
+
+/-- `newProjection(tile, extent).ToWGS84` -/
+theorem newProjToWGS84_tie (F : MFn α) (t : Orb.Tile.Tile) (extent : Nat) (he : extent < 2 ^ 32) (p : Pt α) :
+    Generated.MvtGo.newProjToWGS84 F.atan F.exp trailingZeros32 F.pi F.twoPi F.d180pi F.ofNat t extent p
+      = (newProjection F t.x t.y t.z extent).toWGS84 p := by
+  unfold Generated.MvtGo.newProjToWGS84 newProjection
+  rw [isPowerOfTwo_tie extent he]
+  cases isPowerOfTwo extent with
+  | true =>
+    simp only [↓reduceIte, pow2Proj, Nat.shiftLeft_eq]
+    have h := toGeo_tie F (t.z + trailingZeros32 extent)
+      ⟨p.x + F.ofNat (t.x * 2 ^ trailingZeros32 extent % 2 ^ 64) + 1 / 2,
+       p.y + F.ofNat (t.y * 2 ^ trailingZeros32 extent % 2 ^ 64) + 1 / 2⟩
+    simp only [h]
+  | false =>
+    simp only [Bool.false_eq_true, ↓reduceIte]
+    exact nonPow2ToWGS84_tie F t extent p
+
+/-! ### encoding/mvt/layer.go: `Layer.ProjectToTile`, `Layer.ProjectToWGS84`
+
+The methods have a pointer receiver and write `f.Geometry` through the feature pointers.  They are translated
+through a VIEW of what they touch: `l.Extent` is a parameter, `l.Features` is the list of the `Geometry` values of
+the (distinct) features, `for _, f := range l.Features { f.Geometry = project.Geometry(f.Geometry, p.ToTile) }`
+replaces the i-th value, and the result is that list after the method; `p := newProjection(tile, l.Extent)` stands
+for the two translated closures, `project.Geometry` on the opaque geometry values is the explicit parameter
+`projectGeometry` (instantiated by the model's `geometryVM` at a pure projection), the zero value of the interface
+is `gnil` (the nil interface).  Any other use of the receiver (a cached field, a helper method) leaves the method
+unresolved. -/
+
+/-- `project.Geometry` on values, with a pure projection -/
+def pg (g : GVal α) (f : Pt α → Pt α) : GVal α := (geometryVM (pureP f) g ()).1
+
+theorem layerProjectToTile_tie (F : MFn α) (t : Orb.Tile.Tile) (extent : Nat) (he : extent < 2 ^ 32)
+    (feats : List (GVal α)) :
+    Generated.MvtGo.layerProjectToTile F.sin F.log F.atan F.exp F.floor trailingZeros32 F.pi F.twoPi F.d180pi F.c9999
+        F.ofNat GVal.nilIface pg t extent feats
+      = layerProjectToTile F t.x t.y t.z extent feats := by
+  have hf : Generated.MvtGo.newProjToTile F.sin F.log F.floor trailingZeros32 F.pi F.twoPi F.c9999 F.ofNat t extent
+      = (newProjection F t.x t.y t.z extent).toTile := funext (newProjToTile_tie F t extent he)
+  unfold Generated.MvtGo.layerProjectToTile layerProjectToTile
+  rw [hf]
+  exact foldl_set_map (fun g => pg g (newProjection F t.x t.y t.z extent).toTile) GVal.nilIface feats
+
+theorem layerProjectToWGS84_tie (F : MFn α) (t : Orb.Tile.Tile) (extent : Nat) (he : extent < 2 ^ 32)
+    (feats : List (GVal α)) :
+    Generated.MvtGo.layerProjectToWGS84 F.sin F.log F.atan F.exp F.floor trailingZeros32 F.pi F.twoPi F.d180pi F.c9999
+        F.ofNat GVal.nilIface pg t extent feats
+      = layerProjectToWGS84 F t.x t.y t.z extent feats := by
+  have hf : Generated.MvtGo.newProjToWGS84 F.atan F.exp trailingZeros32 F.pi F.twoPi F.d180pi F.ofNat t extent
+      = (newProjection F t.x t.y t.z extent).toWGS84 := funext (newProjToWGS84_tie F t extent he)
+  unfold Generated.MvtGo.layerProjectToWGS84 layerProjectToWGS84
+  rw [hf]
+  exact foldl_set_map (fun g => pg g (newProjection F t.x t.y t.z extent).toWGS84) GVal.nilIface feats
+
+theorem all_translated_MvtGo : Generated.MvtGo.translated =
+    ["isPowerOfTwo", "nonPow2ToTile", "nonPow2ToWGS84", "newProjToTile", "newProjToWGS84", "layerProjectToTile",
+     "layerProjectToWGS84"] := by
   decide
 
 /-! ### project/projections.go: the closures `Mercator.ToWGS84`, `WGS84.ToMercator`
